@@ -18,6 +18,9 @@ CHECKS = {
  "C06": ("model_checking", "For every tree of a bounded-exhaustive document family (plus wide, multi-line, zero-width and edited-and-reparsed trees) every Node and TreeCursor navigation call is evaluated for every node and every argument and compared with the explicit tree built from one cursor walk.",
          "descendant_for_*_range asserted up to the zero-width ambiguity the documentation leaves open; two known findings listed in known_findings.json.",
          "bounded-exhaustive enumeration of (tree, node, argument) with an explicit-tree reference model", "DESIGN.md §2 C06"),
+ "C10": ("model_checking", "For every tree of a bounded-exhaustive document family and EVERY edit (all start/length pairs x 5 inserted texts) and BFS over edit sequences without re-parsing, the tree before and after Tree::edit are compared in lock step against a reference text model; Node::edit, edit_point, edit_range and the stored included ranges are checked under the same mapping; the look-ahead rule uses hook H2.",
+         "Zero-width nodes on an edit boundary: containment only. Positions exactly at a pure insertion point may map to either side.",
+         "bounded-exhaustive (tree, edit) enumeration + explicit-state BFS over edit sequences, text-model oracle", "DESIGN.md §2 C10"),
 }
 REASON_WIP = "check not built yet (work in progress; see DESIGN.md build order)"
 def main():
